@@ -220,6 +220,24 @@ pub fn run(path: &str, out: &mut dyn Write) {
                     }
                 }
             }
+            Some("extract") => {
+                // extract <id> EXPAND <U|L|R> <tpl> <cate> <m> cells   /   extract <id> MECAB <fd> <rid> <lid> <md> <cf bits>
+                let us = |h: &str| unhex(h).and_then(|b| String::from_utf8(b).ok());
+                if t.len() >= 7 && t[2] == "EXPAND" {
+                    let kind = match t[3] { "U" => 0u8, "L" => 1, _ => 2 };
+                    if let (Some(tpl), Ok(cate), Ok(m)) = (us(t[4]), t[5].parse::<u32>(), t[6].parse::<usize>()) {
+                        let cells: Option<Vec<String>> = t[7..].iter().take(m).map(|c| us(c)).collect();
+                        if let Some(cells) = cells {
+                            writeln!(out, "{input} IMPL {}{flags}", crate::extract::expand_obs(kind, &tpl, cate, &cells)).unwrap();
+                        }
+                    }
+                } else if t.len() >= 8 && t[2] == "MECAB" {
+                    if let (Some(a), Some(b), Some(c), Some(d), Ok(bits)) = (unhex(t[3]), unhex(t[4]), unhex(t[5]), unhex(t[6]), t[7].parse::<u64>()) {
+                        let obs = crate::extract::mecab_obs(&a, &b, &c, &d, f64::from_bits(bits));
+                        writeln!(out, "{input} IMPL {obs}{flags}").unwrap();
+                    }
+                }
+            }
             Some("conn") => {
                 // conn <id> KIND <k> <right> <left> <cost>
                 if t.len() >= 7 && t[2] == "KIND" {
